@@ -7,7 +7,7 @@ CONSTANTS
     RateCfg = 2
     DefTTLCfg = 120
     W = 2
-    MaxT = 5
+    MaxT = 4
     Ticks = {1}
     Mode = "mc"
     Depth = 0
